@@ -62,6 +62,7 @@ type actionDef struct {
 	Hang   bool // sleep 300 instead of DurMs
 	FailRc int  // how it fails: 0/3 = `exit 3`; 137 = kills its own shell with SIGKILL; 143 = with SIGTERM
 	Extra  string // extra shell text run before the sleep
+	Fin    string // if set: the end of the command, after its "E" ledger line (instead of `exit $rc`)
 }
 
 type playDef struct {
@@ -131,14 +132,24 @@ func (p *playDef) render(ledger string) string {
 			if a.Hang {
 				sl = "300"
 			}
-			frc, fin := 3, ""
+			frc, fin := 3, "exit $rc"
 			switch a.FailRc {
 			case 137:
-				frc, fin = 137, "if [ $rc != 0 ]; then kill -KILL $$; sleep 5; fi; "
+				frc, fin = 137, "if [ $rc != 0 ]; then kill -KILL $$; sleep 5; fi; exit $rc"
 			case 143:
-				frc, fin = 143, "if [ $rc != 0 ]; then kill -TERM $$; sleep 5; fi; "
+				frc, fin = 143, "if [ $rc != 0 ]; then kill -TERM $$; sleep 5; fi; exit $rc"
+			case 101:
+				// the command ENDS with an `&&` list whose first member fails: status 1,
+				// `set -e` does not fire, no `exit`
+				frc, fin = 1, "test $rc = 0 && true"
+			case 102:
+				// ... with a negated command: status 1, `set -e` does not fire
+				frc, fin = 1, "! test $rc != 0"
 			}
-			fmt.Fprintf(&b, "  :%s n=$(cat %s.n 2>/dev/null || echo 0); n=$((n+1)); echo $n >%s.n; echo \"$ME A %s $n S $(date +%%s%%N)\" >>$LEDGER; %ssleep %s; rc=0; if %s; then rc=%d; fi; echo \"$ME A %s $n E $(date +%%s%%N) $rc\" >>$LEDGER; %sexit $rc\n",
+			if a.Fin != "" {
+				fin = a.Fin
+			}
+			fmt.Fprintf(&b, "  :%s n=$(cat %s.n 2>/dev/null || echo 0); n=$((n+1)); echo $n >%s.n; echo \"$ME A %s $n S $(date +%%s%%N)\" >>$LEDGER; %ssleep %s; rc=0; if %s; then rc=%d; fi; echo \"$ME A %s $n E $(date +%%s%%N) $rc\" >>$LEDGER; %s\n",
 				a.Name, a.Name, a.Name, a.Name, a.Extra, sl, cond, frc, a.Name, fin)
 		}
 		// cleanup
@@ -544,7 +555,17 @@ func genScript(rng *rand.Rand, p *playDef, maxActs, maxCols int) {
 	for s := 0; s < nScenes; s++ {
 		sd := sceneDef{Char: chars[s : s+1]}
 		nEnt := 1 + rng.Intn(2)
+		emptyAt := -1
+		if rng.Intn(4) == 0 {
+			// a legal clause with an empty action list, before (or between) the others
+			nEnt++
+			emptyAt = rng.Intn(nEnt - 1)
+		}
 		for e := 0; e < nEnt; e++ {
+			if e == emptyAt {
+				sd.Entails = append(sd.Entails, entailDef{Target: p.Actors[rng.Intn(len(p.Actors))]})
+				continue
+			}
 			var ed entailDef
 			if rng.Intn(4) == 0 {
 				ed.Target = "every " + p.Roles[rng.Intn(len(p.Roles))]
@@ -632,7 +653,14 @@ func genRepeat(rng *rand.Rand, p *playDef, allowTime bool) {
 	if len(uc) == 0 {
 		return
 	}
-	switch rng.Intn(6) {
+	switch rng.Intn(7) {
+	case 6:
+		// a count and a generous time bound: the count decides
+		p.Repeat = uc[rng.Intn(len(uc))]
+		p.RepeatN = 2 + rng.Intn(2)
+		if allowTime {
+			p.RepeatMs = 3600000
+		}
 	case 0, 1, 2:
 		// no repeat
 	case 3, 4:
@@ -714,6 +742,10 @@ func genLedgerPlay(rng *rand.Rand, prop string, i int) (*playDef, *cmd.VerifCfg)
 		p := &playDef{Name: fmt.Sprintf("%s-%d", prop, i), Spot: map[string]string{}}
 		genScript(rng, p, 3, 4)
 		genRepeat(rng, p, true)
+		if uc := usedChars(p); i%8 == 1 && len(uc) > 0 {
+			// always present: a count AND a generous time bound (the count decides)
+			p.Repeat, p.RepeatN, p.RepeatMs = uc[rng.Intn(len(uc))], 2+rng.Intn(2), 3600000
+		}
 		if prop == "c04" {
 			// tolerated failures only
 			for k := range p.Actions {
@@ -730,7 +762,7 @@ func genLedgerPlay(rng *rand.Rand, prop string, i int) (*playDef, *cmd.VerifCfg)
 				}
 				if tol && rng.Intn(2) == 0 {
 					a.FailAt = pick(rng, []int{-1, 1, 2})
-					a.FailRc = pick(rng, []int{3, 3, 137, 143})
+					a.FailRc = pick(rng, []int{3, 3, 137, 143, 101, 102})
 				}
 			}
 			if rng.Intn(3) == 0 {
@@ -771,7 +803,7 @@ func genLedgerPlay(rng *rand.Rand, prop string, i int) (*playDef, *cmd.VerifCfg)
 				if len(cands) > 0 {
 					a := cands[rng.Intn(len(cands))]
 					a.FailAt = pick(rng, []int{-1, 1, 1, 2})
-					a.FailRc = pick(rng, []int{3, 3, 137, 143})
+					a.FailRc = pick(rng, []int{3, 3, 137, 143, 101, 102})
 					want := mode == 1 // tolerated?
 					if mode == 3 {
 						want = rng.Intn(2) == 0
@@ -876,10 +908,10 @@ func genRendezvous(name string) *playDef {
 // genJustBefore: deterministic "just before the slot" play.  tempo 1.5 s (1% = 15 ms),
 // storyline `a pqrstu`.  Act 1 (`a`, 1.05 tempo > its slot) ends late, so act 2 starts
 // right when a ends.  The action of column k of act 2 reads a's end from the ledger
-// and sleeps until (a's end + (k+1) x tempo - X_k), X_k = 5, 7, 9, 11, 13 ms: it ends a
+// and sleeps until (a's end + (k+1) x tempo - X_k), X_k = 3, 5, 8, 11, 14 ms: it ends a
 // few ms before the slot of column k+1, whose action must nevertheless not start before
 // act start + (k+1) x tempo >= (recorded end of a) + (k+1) x tempo.
-var justBeforeX = []int{5, 7, 9, 11, 13}
+var justBeforeX = []int{11, 14, 17, 20, 23}
 
 const justBeforeTempoMs = 1500
 
@@ -898,8 +930,15 @@ func genJustBefore(name string) *playDef {
 		name := ch + "0s0"
 		ad := actionDef{Name: name, DurMs: 0}
 		if k < len(justBeforeX) {
-			ad.Extra = fmt.Sprintf(`ae=$(grep " A a0s0 1 E " $LEDGER | tail -1 | cut -d" " -f6); d=$((ae + %d*%d000000 - %d000000 - $(date +%%s%%N))); if [ $d -gt 0 ]; then sleep $(printf "%%d.%%09d" $((d/1000000000)) $((d%%1000000000))); fi; `,
-				k+1, justBeforeTempoMs, justBeforeX[k])
+			// coarse wait until 40 ms before the target, then the "E" ledger line (an instant the
+			// command did experience), then the fine wait and an immediate exit: what remains
+			// between the target and the prompter noticing the end is one process exit.
+			until := func(ms int) string {
+				return fmt.Sprintf(`d=$((ae + %d*%d000000 - %d000000 - $(date +%%s%%N))); if [ $d -gt 0 ]; then sleep $(printf "%%d.%%09d" $((d/1000000000)) $((d%%1000000000))); fi; `,
+					k+1, justBeforeTempoMs, ms)
+			}
+			ad.Extra = `ae=$(grep " A a0s0 1 E " $LEDGER | tail -1 | cut -d" " -f6); ` + until(justBeforeX[k]+40)
+			ad.Fin = until(justBeforeX[k]) + "exit 0"
 		}
 		p.Actions = append(p.Actions, ad)
 		p.Scenes = append(p.Scenes, sceneDef{ch, []entailDef{{"x1", []stepDef{{name, false}}}}})
@@ -913,20 +952,22 @@ func genJustBefore(name string) *playDef {
 // the next slot (counted from a's end, the lower bound of the act's start).  None
 // (machine load): the play says nothing about the window and is worth another try.
 func justBeforeHits(o *observation) int {
+	// on the prompter's own recorded instants (csv: start, duration since the epoch)
 	var aEnd int64
-	for _, r := range o.Ledger {
+	for _, r := range o.Csv {
 		if r.Action == "a0s0" {
-			aEnd = r.End
+			aEnd = r.StartNs + r.DurNs
 		}
 	}
 	hits := 0
-	for _, r := range o.Ledger {
+	for _, r := range o.Csv {
 		k := strings.Index("pqrstu", r.Action[:1])
-		if k < 0 || k >= len(justBeforeX) || r.End <= 0 || aEnd <= 0 {
+		if k < 0 || k >= len(justBeforeX) || aEnd <= 0 {
 			continue
 		}
 		slot := aEnd + int64(k+1)*justBeforeTempoMs*1000000
-		if r.End < slot && r.End > slot-justBeforeTempoMs*10000 {
+		end := r.StartNs + r.DurNs
+		if end < slot && end > slot-justBeforeTempoMs*10000 {
 			hits++
 		}
 	}
@@ -934,6 +975,55 @@ func justBeforeHits(o *observation) int {
 }
 
 func justBeforeMissed(o *observation) bool { return justBeforeHits(o) == 0 }
+
+// genManyActors: 70 acting actors (more than 64 csv files open) in a play longer than
+// 1 s (the collector's flush tick): every actor must have one csv row per action.
+func genManyActors(name string) *playDef {
+	p := &playDef{Name: name, Spot: map[string]string{}, RoleOf: map[string]string{}}
+	p.Roles = []string{"r1"}
+	for i := 1; i <= 70; i++ {
+		a := fmt.Sprintf("x%d", i)
+		p.Actors = append(p.Actors, a)
+		p.RoleOf[a] = "r1"
+	}
+	p.TempoMs = 500
+	p.Actions = []actionDef{{Name: "a0s0", DurMs: 0}, {Name: "b0s0", DurMs: 0}}
+	p.Scenes = []sceneDef{
+		{"a", []entailDef{{"every r1", []stepDef{{"a0s0", false}}}}},
+		{"b", []entailDef{{"every r1", []stepDef{{"b0s0", false}}}}},
+	}
+	p.Story = []string{"a..b"}
+	return p
+}
+
+// genHeadShare: a scene of several lines (3, 5, 6 or 7) at the HEAD of two `+` groups
+// with different partners (`a+b ... a+c`): each partner is performed with it once.
+func genHeadShare(rng *rand.Rand, name string, variant int) *playDef {
+	p := &playDef{Name: name, Spot: map[string]string{}, RoleOf: map[string]string{}}
+	p.Roles = []string{"r1"}
+	for i := 1; i <= 3; i++ {
+		a := fmt.Sprintf("x%d", i)
+		p.Actors = append(p.Actors, a)
+		p.RoleOf[a] = "r1"
+	}
+	p.TempoMs = pick(rng, []int{40, 80})
+	p.Actions = []actionDef{{Name: "a0s0", DurMs: 10}, {Name: "a1s0", DurMs: 5}, {Name: "b0s0", DurMs: 10}, {Name: "c0s0", DurMs: 10}}
+	a := sceneDef{"a", []entailDef{{"every r1", []stepDef{{"a0s0", false}}}}}
+	switch variant % 4 {
+	case 1: // 5 lines
+		a.Entails = append(a.Entails, entailDef{"x1", []stepDef{{"a1s0", false}}}, entailDef{"x2", []stepDef{{"a1s0", false}}})
+	case 2: // 6 lines
+		a.Entails = append(a.Entails, entailDef{"every r1", []stepDef{{"a1s0", false}}})
+	case 3: // 7 lines
+		p.Actions = append(p.Actions, actionDef{Name: "a2s0", DurMs: 0})
+		a.Entails = append(a.Entails, entailDef{"every r1", []stepDef{{"a1s0", false}}}, entailDef{"x3", []stepDef{{"a2s0", false}}})
+	}
+	p.Scenes = []sceneDef{a,
+		{"b", []entailDef{{"x1", []stepDef{{"b0s0", false}}}}},
+		{"c", []entailDef{{"x2", []stepDef{{"c0s0", false}}}}}}
+	p.Story = []string{[]string{"a+b a+c", "a+b.a+c", "a+b a+c a+b", "a+c.a+b a"}[(variant/4+variant)%4]}
+	return p
+}
 
 // genFanoutFail: a group of 3-4 concurrent lines (`a+b+c d`), the non-tolerated failing
 // one being the SLOWEST (it reports its failure after the others reported success),
@@ -1312,6 +1402,9 @@ func expectedPlay(p *playDef) [][]cmd.VerifScene {
 					} else {
 						actors = []string{e.Target}
 					}
+					if len(e.Steps) == 0 {
+						continue // a clause without actions yields no line
+					}
 					for _, a := range actors {
 						l := cmd.VerifLine{Actor: a}
 						for _, st := range e.Steps {
@@ -1510,6 +1603,10 @@ func main() {
 			switch {
 			case *prop == "c05" && i%8 == 7:
 				p = genFanoutFail(rng, fmt.Sprintf("c05-%d-fanout", i), i/8)
+			case i%8 == 3:
+				p = genHeadShare(rng, fmt.Sprintf("%s-%d-headshare", *prop, i), i/8)
+			case *prop == "c04" && (i == n-3 || i%100 == 97):
+				p = genManyActors(fmt.Sprintf("c04-%d-many-actors", i))
 			case *prop == "c04" && (i == n-1 || i%100 == 99):
 				p = genRendezvous(fmt.Sprintf("c04-%d-rendezvous", i))
 			case *prop == "c04" && (i == n-2 || i%100 == 98):
@@ -1624,6 +1721,27 @@ func main() {
 			}
 			if c.Def.Rdv {
 				dist[fmt.Sprintf("rendezvous-of-%d-lines", len(c.Def.Actors))]++
+			}
+			if strings.HasSuffix(c.Name, "headshare") {
+				dist["multi-line-scene-heading-two-groups"]++
+			}
+			if strings.HasSuffix(c.Name, "many-actors") {
+				dist["plays-with-70-acting-actors"]++
+			}
+			for _, sc := range c.Def.Scenes {
+				for _, e := range sc.Entails {
+					if len(e.Steps) == 0 {
+						dist["clauses-with-an-empty-action-list"]++
+					}
+				}
+			}
+			if c.Def.RepeatN > 0 && c.Def.RepeatMs >= 3600000 {
+				dist["repeat-count-and-generous-time"]++
+			}
+			for _, r := range c.Obs.Ledger {
+				if r.Rc == 1 {
+					dist["rows-of-actions-ending-in-a-failed-and-list-or-negation"]++
+				}
 			}
 			if strings.HasSuffix(c.Name, "fanout") {
 				dist["fanout-slowest-line-fails"]++
